@@ -20,6 +20,7 @@ Record tstate := TState {
   s_depth : Z;                 (* UnconfirmedDepth *)
   s_proof : option Z;          (* merkle proof: the block it is for *)
   s_outs : list Z;             (* spent outputs, per input *)
+  s_body : list Z;             (* the stored transaction itself (client.Tx.Tx): the outpoints it spends *)
 }.
 
 Record utx := UTx { u_time : Z; u_unsafe : bool; u_safe : bool; u_trusted : bool }.
@@ -86,7 +87,7 @@ Fixpoint mark_conflicts (n : node) (cs : list Z) (acc : list event) : node * lis
           match states n1 !! c with
           | None => mark_conflicts n1 cs' acc                  (* FetchTxState failed: continue *)
           | Some s =>
-              let s1 := TState false true (s_cancel s) (s_depth s) (s_proof s) (s_outs s) in
+              let s1 := TState false true (s_cancel s) (s_depth s) (s_proof s) (s_outs s) (s_body s) in
               mark_conflicts (set_states n1 (<[c := s1]> (states n1))) cs' (acc ++ [EUpdate c s1])
           end
       end
@@ -113,7 +114,7 @@ Definition process_unconfirmed (n : node) (t : Z) (body : list Z) (rel trusted s
         match states n !! t with
         | None => (n, evs)
         | Some s =>
-            let s1 := TState false true (s_cancel s) (s_depth s) (s_proof s) (s_outs s) in
+            let s1 := TState false true (s_cancel s) (s_depth s) (s_proof s) (s_outs s) (s_body s) in
             (set_states n (<[t := s1]> (states n)), evs ++ [EUpdate t s1])
         end
       else if safe && negb (u_safe u) then
@@ -121,7 +122,7 @@ Definition process_unconfirmed (n : node) (t : Z) (body : list Z) (rel trusted s
         | None => (n, evs)
         | Some s =>
             if s_safe s || s_unsafe s || s_cancel s then (n, evs) else
-            let s1 := TState true (s_unsafe s) (s_cancel s) (s_depth s) (s_proof s) (s_outs s) in
+            let s1 := TState true (s_unsafe s) (s_cancel s) (s_depth s) (s_proof s) (s_outs s) (s_body s) in
             (set_states n (<[t := s1]> (states n)), evs ++ [EUpdate t s1])
         end
       else (n, evs)
@@ -133,16 +134,23 @@ Definition process_unconfirmed (n : node) (t : Z) (body : list Z) (rel trusted s
                        | Some s => match s_proof s with Some b => in_chain n b | None => false end
                        | None => false
                        end in
-      if confirmed then (set_unconf n (delete t (unconf n)), evs)   (* already delivered with its confirmation *)
+      if confirmed then
+        (* already delivered with its confirmation: it is taken out of the mempool again (only transactions
+           that were judged not relevant stay in the mempool without being in the unconfirmed set) *)
+        (set_mp (set_unconf n (delete t (unconf n))) (fst (remove_transaction (mp n) t)), evs)
       else
         let s0 := match existing with
                   | Some s => s
-                  | None => TState false false false 0 None (spent_outputs n body)
+                  | None => TState false false false 0 None (spent_outputs n body) body
                   end in
         let depth := match s_proof s0 with None => 1 | Some _ => s_depth s0 end in
         let s1 := if negb (zlen conflicts =? 0)
-                  then TState false true (s_cancel s0) depth (s_proof s0) (s_outs s0)
-                  else TState (safe || newly_safe) (s_unsafe s0) (s_cancel s0) depth (s_proof s0) (s_outs s0) in
+                  then TState false true (s_cancel s0) depth (s_proof s0) (s_outs s0) (s_body s0)
+                  else
+                    (* a state that was unsafe or cancelled (it was stored before the block that confirmed the
+                       transaction was orphaned) is never made safe *)
+                    TState ((safe || newly_safe) && negb (s_unsafe s0 || s_cancel s0)) (s_unsafe s0) (s_cancel s0)
+                           depth (s_proof s0) (s_outs s0) (s_body s0) in
         (set_states n (<[t := s1]> (states n)), evs ++ [ETx t s1])
   end.
 
@@ -169,7 +177,7 @@ Fixpoint cancel_conflicts (n : node) (t : Z) (unc : list Z) (cs : list Z) (safe 
         match states n !! c with
         | None => None
         | Some s =>
-            let s1 := TState false true true (s_depth s) (s_proof s) (s_outs s) in
+            let s1 := TState false true true (s_depth s) (s_proof s) (s_outs s) (s_body s) in
             cancel_conflicts (set_states n (<[c := s1]> (states n))) t unc cs' false (acc ++ [EUpdate c s1])
         end
       else cancel_conflicts n t unc cs' false acc
@@ -216,14 +224,16 @@ Fixpoint block_notify (n : node) (b : Z) (pending : list (Z * list Z * bool * bo
   | [] => Some (n, acc)
   | (t, body, is_new, is_safe) :: p' =>
       if is_new then
-        let s := TState is_safe (negb is_safe) false 0 (Some b) (spent_outputs n body) in
+        (* delivered before (its block was orphaned) and unsafe or cancelled then: never reported safe *)
+        let sf := is_safe && negb (match states n !! t with Some so => s_unsafe so || s_cancel so | None => false end) in
+        let s := TState sf (negb sf) false 0 (Some b) (spent_outputs n body) body in
         block_notify (set_states n (<[t := s]> (states n))) b p' (acc ++ [ETx t s])
       else
         match states n !! t with
         | None => None
         | Some s =>
             let ok := negb (s_unsafe s) && is_safe in
-            let s1 := TState ok (negb ok) (s_cancel s) 0 (Some b) (s_outs s) in
+            let s1 := TState ok (negb ok) (s_cancel s) 0 (Some b) (s_outs s) (s_body s) in
             block_notify (set_states n (<[t := s1]> (states n))) b p' (acc ++ [EUpdate t s1])
         end
   end.
@@ -310,7 +320,7 @@ Fixpoint delay_loop (n : node) (cutoff : Z) (keys : list Z) (acc : list event) :
             | None => delay_loop n1 cutoff keys' acc
             | Some s =>
                 if s_unsafe s || s_cancel s then delay_loop n1 cutoff keys' acc else
-                let s1 := TState true (s_unsafe s) (s_cancel s) (s_depth s) (s_proof s) (s_outs s) in
+                let s1 := TState true (s_unsafe s) (s_cancel s) (s_depth s) (s_proof s) (s_outs s) (s_body s) in
                 delay_loop (set_states n1 (<[t := s1]> (states n1))) cutoff keys' (acc ++ [EUpdate t s1])
             end
           else delay_loop n cutoff keys' acc
@@ -321,9 +331,19 @@ Definition delay_check (n : node) : node * list event :=
   if negb (insync n) then (n, []) else
   delay_loop n (now n - delay n) (sorted_keys (unconf n)) [].
 
-(* clean restart: everything persisted is kept; mempool and sync flag start empty *)
+(* clean restart: everything persisted is kept; the sync flag starts cleared; the mempool is not stored: load
+   puts the stored transactions of the unconfirmed set back into it (not trusted-flagged, time = now), so that
+   conflicts with them are still detected.  The order in which they enter the outpoint index is the iteration
+   order of a Go map; the harness normalises it to ascending txid (it only decides the order of the
+   notifications within a later step). *)
+Definition reload (n : node) : mempool :=
+  fold_left (fun m t => match states n !! t with
+                        | Some s => fst (add_transaction m (now n) t (s_body s) false)
+                        | None => m
+                        end) (sorted_keys (unconf n)) mp_init.
+
 Definition restart (n : node) : node :=
-  Node mp_init (unconf n) (states n) (blocktxs n) (chain n) false (now n) (delay n).
+  Node (reload n) (unconf n) (states n) (blocktxs n) (chain n) false (now n) (delay n).
 
 (* ---------------------------------------------------------------------------------------- *)
 Inductive src := STrusted | SUntrusted | SLocal.
